@@ -74,6 +74,7 @@ class LayerRunner:
         self.rec.file_paths = {}
         self.obj = self.make()
         self.rec.enabled = True
+        self.blocks = []
 
     def settings(self):
         c = self.cfg
@@ -115,15 +116,31 @@ class LayerRunner:
         f['kp'] = kp.hex() if kp is not None else '-'
 
     def enc_val(self, f, v):
+        f['v'], vp = self.val_token(v)
+        f['vp'] = vp or '-'
+
+    def val_token(self, v):
+        """(value token, hex of its pickle or None)"""
         codec = self.codec
         nat = codec.native(v, False)
         if nat is not None:
-            f['v'] = nat
-            f['vp'] = '-'
-        else:
-            vp = codec.val_pickle(v)
-            f['v'] = ('i%d' % v) if type(v) is int else 'o' + vp.hex()
-            f['vp'] = vp.hex()
+            return nat, None
+        vp = codec.val_pickle(v)
+        return (('i%d' % v) if type(v) is int else 'o' + vp.hex()), vp.hex()
+
+    def enc_vals(self, f, vs):
+        toks = [self.val_token(v) for v in vs]
+        f['vs'] = ';'.join(t for t, _ in toks) or '-'
+        f['vps'] = ';'.join(p or '_' for _, p in toks) or '-'
+
+    def enc_keys(self, f, ks):
+        codec = self.codec
+        toks = []
+        for k in ks:
+            kp = codec.key_pickle(k) if (codec.disk == 'json' or codec.native(k, True) is None) else None
+            toks.append((codec.render_key(k), kp.hex() if kp is not None else '_'))
+        f['ks'] = ';'.join(t for t, _ in toks) or '-'
+        f['kps'] = ';'.join(p for _, p in toks) or '-'
 
     def finish(self, f, res):
         f['env'] = ','.join(str(pc * self.page_size()) for pc in self.rec.page_counts) or '-'
@@ -161,8 +178,13 @@ class FanoutRunner(LayerRunner):
         return self.obj._shards[0]._page_size
 
     def state(self):
-        return ' || '.join(dir_state(os.path.join(self.dir, '%03d' % i), self.local_ids(os.path.join(self.dir, '%03d' % i)))
-                           for i in range(self.cfg['shards']))
+        parts = []
+        for i in range(self.cfg['shards']):
+            d = os.path.join(self.dir, '%03d' % i)
+            # inside an open block only the owner's connections see the working state
+            con = self.obj._shards[i]._con._con if self.blocks else None
+            parts.append(dir_state(d, self.local_ids(d), con=con, depth=len(self.blocks)))
+        return ' || '.join(parts)
 
     def state_line(self):
         return 'lstate cls=fanout'
@@ -205,7 +227,35 @@ class FanoutRunner(LayerRunner):
             f['delta'] = op.get('delta', 1)
             d = op.get('default', 0)
             f['default'] = 'n' if d is None else d
+            if op.get('via') == 'decr':
+                f['m'] = 'decr'
+                f['delta'] = -f['delta']
+                return 'i%d' % c.decr(k, f['delta'], d)
             return 'i%d' % c.incr(k, f['delta'], d)
+        if m == 'read':
+            return self.codec.render_val(c.read(k))
+        if m == 'reset':
+            f['key'] = op['key']
+            f['value'] = op['value']
+            return 'i%d' % c.reset(op['key'], op['value'])
+        if m == 'tbegin':
+            cm = c.transact()
+            cm.__enter__()
+            self.blocks.append(cm)
+            return 'n'
+        if m == 'tend':
+            self.blocks.pop().__exit__(None, None, None)
+            return 'n'
+        if m == 'traise':
+            n = int(op.get('n', 1))
+            f['n'] = n
+            exc = RuntimeError('abort')
+            for _ in range(min(n, len(self.blocks))):
+                try:
+                    self.blocks.pop().__exit__(RuntimeError, exc, None)
+                except RuntimeError:
+                    pass
+            return 'n'
         if m == 'get':
             return self.flags(c.get(k, default=DEFAULT, expire_time=bool(et), tag=bool(tg)), et, tg)
         if m == 'getitem':
@@ -239,6 +289,10 @@ class FanoutRunner(LayerRunner):
             f['enable'] = int(op.get('enable', 1))
             f['reset'] = int(op.get('reset', 0))
             return '(i%d,i%d)' % c.stats(enable=bool(f['enable']), reset=bool(f['reset']))
+        if m == 'check':
+            ws = [str(w.message) for w in c.check()]
+            ws = [w for w in ws if not w.startswith('empty directory')]
+            return '[]' if not ws else '!Inconsistent'
         if m == 'route':
             return 'i%d' % (c._hash(k) % c._count)
         raise ValueError(m)
@@ -323,6 +377,51 @@ class DequeRunner(LayerRunner):
         if m == 'maxlen':
             d.maxlen = op['i']
             return 'n'
+        if m in ('extend', 'extendleft', 'iadd'):
+            self.enc_vals(f, op['vs'])
+            if m == 'extend':
+                d.extend(iter(op['vs']))
+            elif m == 'extendleft':
+                d.extendleft(iter(op['vs']))
+            else:
+                d += list(op['vs'])
+                if d is not self.obj:
+                    return '!NotSameObject'
+            return 'n'
+        if m == 'count':
+            return 'i%d' % d.count(op['v'])
+        if m == 'remove':
+            d.remove(op['v'])
+            return 'n'
+        if m == 'cmp':
+            import collections
+            import operator
+            self.enc_vals(f, op['vs'])
+            f['op'] = op['op']
+            that = collections.deque(op['vs']) if op.get('that') == 'deque' else list(op['vs'])
+            r = getattr(operator, op['op'])(d, that)
+            return 'T' if r is True else 'F' if r is False else '!' + repr(r)
+        if m in ('copy', 'pickle', 'reopen'):
+            # a second handle on the same directory takes over (the first stays open, as in a program
+            # that keeps both); `reopen` closes the first one before
+            self.rec.enabled = False
+            try:
+                if m == 'copy':
+                    new = d.copy()
+                elif m == 'pickle':
+                    import pickle
+                    new = pickle.loads(pickle.dumps(d))
+                else:
+                    ml = d.maxlen
+                    d._cache.close()
+                    new = self.env.diskcache.Deque(directory=self.dir, maxlen=ml)
+            finally:
+                self.rec.enabled = True
+            if type(new) is not type(d) or new.directory != d.directory:
+                return '!NotSameDirectory'
+            self.obj = new
+            self.cache = new._cache
+            return 'n'
         raise ValueError(m)
 
 
@@ -398,6 +497,45 @@ class IndexRunner(LayerRunner):
         if m == 'clear':
             x.clear()
             return 'n'
+        if m == 'update':
+            self.enc_keys(f, [kv[0] for kv in op['pairs']])
+            self.enc_vals(f, [kv[1] for kv in op['pairs']])
+            how = op.get('how', 'pairs')
+            if how == 'dict':
+                x.update(dict(op['pairs']))
+            elif how == 'kwargs':
+                x.update(**dict(op['pairs']))
+            else:
+                x.update(list(op['pairs']))
+            return 'n'
+        if m == 'keys':
+            return '[' + ','.join(self.codec.render_key(y) for y in x.keys()) + ']'
+        if m == 'values':
+            return '[' + ','.join(rv(y) for y in x.values()) + ']'
+        if m in ('eq', 'ne'):
+            import collections
+            self.enc_keys(f, [kv[0] for kv in op['pairs']])
+            self.enc_vals(f, [kv[1] for kv in op['pairs']])
+            f['ordered'] = int(op.get('ordered', 0))
+            other = collections.OrderedDict(op['pairs']) if f['ordered'] else dict(op['pairs'])
+            r = (x == other) if m == 'eq' else (x != other)
+            return 'T' if r is True else 'F' if r is False else '!' + repr(r)
+        if m in ('pickle', 'reopen'):
+            self.rec.enabled = False
+            try:
+                if m == 'pickle':
+                    import pickle
+                    new = pickle.loads(pickle.dumps(x))
+                else:
+                    x._cache.close()
+                    new = self.env.diskcache.Index(self.dir)
+            finally:
+                self.rec.enabled = True
+            if type(new) is not type(x) or new.directory != x.directory:
+                return '!NotSameDirectory'
+            self.obj = new
+            self.cache = new._cache
+            return 'n'
         raise ValueError(m)
 
 
@@ -445,10 +583,12 @@ class DjangoRunner(LayerRunner):
         timeout = DEFAULT_TIMEOUT if t == 'd' else None if t == 'n' else t
         if 'v' in op:
             self.enc_val(f, op['v'])
+        if 'tag' in op:
+            f['tag'] = render_sql(op['tag'])
         if m == 'set':
-            return tf(c.set(key, op['v'], timeout=timeout, version=version))
+            return tf(c.set(key, op['v'], timeout=timeout, version=version, tag=op.get('tag')))
         if m == 'add':
-            return tf(c.add(key, op['v'], timeout=timeout, version=version))
+            return tf(c.add(key, op['v'], timeout=timeout, version=version, tag=op.get('tag')))
         if m == 'get':
             r = c.get(key, DEFAULT, version=version)
             return 'D' if r is DEFAULT else rv(r)
@@ -463,9 +603,29 @@ class DjangoRunner(LayerRunner):
             return tf(c.has_key(key, version=version))
         if m == 'incr':
             f['delta'] = op.get('delta', 1)
+            if op.get('via') == 'decr':
+                f['m'] = 'decr'
+                f['delta'] = -f['delta']
+                return 'i%d' % c.decr(key, f['delta'], version=version)
             return 'i%d' % c.incr(key, f['delta'], version=version)
+        if m == 'read':
+            return rv(c.read(key, version=version))
         if m == 'clear':
             return 'i%d' % c.clear()
+        if m == 'expire':
+            return 'i%d' % c.expire()
+        if m == 'cull':
+            return 'i%d' % c.cull()
+        if m == 'evict':
+            f['tag'] = render_sql(op.get('tag'))
+            return 'i%d' % c.evict(op.get('tag'))
+        if m == 'stats':
+            f['enable'] = int(op.get('enable', 1))
+            f['reset'] = int(op.get('reset', 0))
+            return '(i%d,i%d)' % c.stats(enable=bool(f['enable']), reset=bool(f['reset']))
+        if m == 'backend_timeout':
+            r = c.get_backend_timeout(timeout)
+            return 'n' if r is None else 'i%d' % r
         if m == 'make_key':
             return 's' + cps(c.make_key(key, version=version))
         raise ValueError(m)
